@@ -15,6 +15,9 @@ MODEL_CFGS = {
     "os_big": {
         "tla": {"Pts": "Pts_os_big", "EvMax": "EvMax_mixed"},
         "points": [("bi", 0, 2, 0), ("os", 0, 1, 250)], "evmax": [2, 0, 0, 0, 0, 0, 0, 2]},
+    "mixed_pk": {
+        "tla": {"Pts": "Pts_mixed_pk", "EvMax": "EvMax_mixed"}, "packed": True,
+        "points": [("bi", 0, 2, 0), ("os", 0, 1, 130)], "evmax": [2, 0, 0, 0, 0, 0, 0, 2]},
     "mixed": {
         "tla": {"Pts": "Pts_mixed", "EvMax": "EvMax_mixed"},
         "points": [("bi", 0, 2, 0), ("os", 0, 1, 130)], "evmax": [2, 0, 0, 0, 0, 0, 0, 2]},
@@ -30,7 +33,7 @@ def harness_cfg(name, retries=1, unsol=True):
         if ty == "os":
             pts.append({"ty": "os", "ix": ix, "cls": cls, "init": {"val": "os%d:0" % L}})
         else:
-            pts.append({"ty": "bi", "ix": ix, "cls": cls, "svar": 2, "evar": 2,
+            pts.append({"ty": "bi", "ix": ix, "cls": cls, "svar": 1 if m.get("packed") else 2, "evar": 2,
                         "init": {"val": 0, "fl": 1, "tm": 0}})
     return {"sol_buf": 249, "unsol_buf": 249, "confirm_to": TIMING["ConfirmTO"],
             "select_to": TIMING["SelectTO"], "retry_delay": TIMING["RetryDelay"],
@@ -102,7 +105,10 @@ def _steps_of(hist, name):
         elif k == "upd":
             n += 1
             pt = pts[h["p"] - 1]
-            out.append({"k": "upd", "ty": pt[0], "ix": pt[1], "val": upd_val(pt, n), "fl": 1,
+            val = upd_val(pt, n)
+            # packed models: the flags go with the value (1 <-> ONLINE|RESTART)
+            fl = 3 if MODEL_CFGS[name].get("packed") and pt[0] == "bi" and val == 1 else 1
+            out.append({"k": "upd", "ty": pt[0], "ix": pt[1], "val": val, "fl": fl,
                         "tm": 1000 + n, "mode": "force"})
         elif k == "read":
             st = {"k": "rx", "fn": "read", "seq": h["seq"], "hdrs": [hdr(t) for t in h["hs"]],
